@@ -590,7 +590,7 @@ def _unexpected(name: str, p: xml.parsers.expat.XMLParserType) -> LMFError:
 
 def _validate(elem: _Elem) -> Union[Lexicon, LexiconExtension]:
     ext = elem.get('extends')
-    if ext:
+    if ext is not None:  # an <Extends> without attributes gives {}
         assert 'id' in ext
         assert 'version' in ext
         _validate_lexicon(elem, True)
